@@ -97,7 +97,8 @@ fn write_samples(dir: &str, prefix: &str, samples: &[Vec<Vec<u8>>]) -> Vec<Strin
         .iter()
         .enumerate()
         .map(|(i, s)| {
-            let n = format!("{prefix}{i}");
+            // names whose input order is not the sorted order
+            let n = format!("{}{prefix}{i}", ["z", "m", "b", "r"][i % 4]);
             std::fs::write(format!("{dir}/{n}.fa"), scratch::fasta(s)).unwrap();
             n
         })
